@@ -1,3 +1,83 @@
-import SoxrModel.Cr.Model
+import SoxrModel.Cr.Stream
+/-!
+# C08 Progress: every call returns, draining terminates, latency stays bounded
+
+Model: count model of the constant-rate engine (`Cr/Model.lean`); `Eng.process fuel` is `_soxr_process` with the
+recursion `stage_process` fuelled — "returns `some`" *is* termination of the C loops, and the fuel a call needs is the
+work it does.  Hypothesis throughout: `PipeWF` (decidable; evaluated by the driver on every plan the real planner
+exports).  Its clauses `pre_post < input_size` and `step ≤ (pre_post+1)·den` are exactly what the proofs need: the
+first is what the pinned tree violated for QQ with `io_ratio > 8192` (F3, repaired).
+-/
 namespace Soxr.Properties.C08
+open Soxr Soxr.Cr
+
+/-- **Every streaming call returns.**  For every well-formed state and every request size `_soxr_process` terminates;
+    the number of iterations of its loop is at most the weighted amount of buffered data `Σ occᵢ·Wᵢ` plus two —
+    work bounded linearly by the data the resampler holds. -/
+theorem process_terminates_streaming (e : Eng) (olen : Nat) (h : Streaming e) :
+    ∃ F e', (∀ fuel k, F ≤ fuel → phi 0 e.stages + 2 ≤ k → procLoop fuel k e (e.target olen) false = some e') ∧
+      SameCounters e e' ∧ PipeWF e'.stages := by
+  obtain ⟨F, e', h1, h2, h3, _⟩ := procLoop_stream (e.target olen) _ e false h.fl h.ne h.wf (Nat.le_refl _)
+  exact ⟨F, e', h1, h2, h3⟩
+
+/-- **Every call after end-of-input returns** and leaves the whole request (or all that is owed) in the output FIFO. -/
+theorem process_terminates_flushing (e : Eng) (olen : Nat) (hfl : e.fl = true) (hne : e.stages ≠ []) (hwf : PipeWF e.stages) :
+    ∃ fuel e', e.process fuel olen = some e' ∧ e.target olen ≤ e'.outOcc :=
+  let ⟨fuel, e', h1, h2, _⟩ := process_flush_total e olen hfl hne hwf
+  ⟨fuel, e', h1, h2⟩
+
+theorem sum_replicate (k n : Nat) : (List.replicate k n).sum = k * n := by
+  induction k with
+  | zero => simp
+  | succ k ih => simp [List.replicate_succ, ih, Nat.succ_mul]; omega
+
+/-- **Draining terminates.**  After end-of-input, requests of `len > 0` frames deliver everything owed within
+    `⌈owed / len⌉` calls, each of which returns; afterwards 0 frames for ever. -/
+theorem drain_terminates (num : Num) (a : Api) (len : Nat) (hlen : 0 < len) (hfl : a.flushing = true) (hd : Draining a.eng) :
+    ∃ a', Calls num a (List.replicate (ceilDiv a.eng.owedLeft len) len)
+        (drainSpec a.eng.owedLeft (List.replicate (ceilDiv a.eng.owedLeft len) len)) a' ∧
+      a'.eng.owedLeft = 0 ∧ a'.flushing = true ∧ Draining a'.eng := by
+  obtain ⟨a', hc, hfl', hd', ho⟩ := calls_draining num (List.replicate (ceilDiv a.eng.owedLeft len) len) a hfl hd
+  refine ⟨a', hc, ?_, hfl', hd'⟩
+  rw [ho]
+  have : a.eng.owedLeft ≤ (List.replicate (ceilDiv a.eng.owedLeft len) len).sum := by
+    rw [sum_replicate]
+    exact le_ceilDiv_mul hlen
+  omega
+
+/-- … and from then on nothing, whatever is requested. -/
+theorem drained_stays_empty (num : Num) (a : Api) (reqs : List Nat) (hfl : a.flushing = true) (hd : Draining a.eng)
+    (h0 : a.eng.owedLeft = 0) : ∀ ods a', Calls num a reqs ods a' → ods.sum = 0 := by
+  intro ods a' hc
+  obtain ⟨a'', hc', _⟩ := calls_draining num reqs a hfl hd
+  obtain ⟨e1, _⟩ := calls_det num reqs a _ _ _ _ hc hc'
+  rw [e1, drainSpec_sum, h0]; simp
+
+/-- **Latency is bounded by the plan, not by the stream.**  Whenever a streaming call ends with fewer frames than were
+    asked for, every stage FIFO holds fewer frames than its `input_size`. -/
+theorem latency_bounded (e e' : Eng) (olen fuel : Nat) (h : e.process fuel olen = some e')
+    (hstarved : (e'.outOcc : Int) < e.target olen) : ∀ x ∈ e'.stages, x.st.occ < x.st.isz := by
+  intro x hx
+  have := process_starved e olen fuel e' h hstarved x hx
+  exact (Stage.short_true_iff x).mp this
+
+/-- Every streaming history can be run to its end: each of its calls returns. -/
+theorem every_history_runs (e : Eng) (ops : List StreamOp) (h : Streaming e) : ∃ F D e', Streams e ops F D e' :=
+  streams_total ops e h
+
+/-- Not yet proved in Lean (decided on the real code by the watchdog and by the request/answer correspondence of the
+    pull loop): for every finite supply behaviour the `do … while` of `soxr_output` ends after at most
+    `#answers + 1` iterations. -/
+def Goal_pull_loop_terminates : Prop :=
+  ∀ (num : Num) (a : Api) (len0 : Nat) (script : List Supply), PipeWF a.eng.stages → a.eng.stages ≠ [] →
+    ∃ fuel, (a.output num fuel len0 script).isSome
+
+/-! ## non-vacuity -/
+def exEng : Eng := { stages :=
+  [ { cfg := { kind := .clocked, prePost := 15, den := 80, step := 147, poly0 := true }, st := { occ := 8, clk := 40, isz := 8192 } },
+    { cfg := { kind := .half, prePost := 32 }, st := { occ := 16, isz := 8192 } },
+    { cfg := { kind := .dft, L := 2, dftLen := 2048, numTaps := 409, M := 1 }, st := { occ := 102, clk := 0, isz := 1024 } } ] }
+
+example : Streaming exEng := ⟨rfl, by decide, by decide⟩
+
 end Soxr.Properties.C08
